@@ -226,13 +226,14 @@ Definition remove_keys_pdict (ks : list str) (d : pdict) : pdict :=
   map (fun pe : str * dict cdict =>
          (fst pe, filter (fun ke : str * cdict => negb (mem_str (fst ke) ks)) (snd pe))) d.
 
-(** one iteration; direct-features layout only (in inverse mode the code
-    iterates over the (direct, inverse) tuple and raises TypeError) *)
+(** one iteration: the removed class keys disappear from every property's
+    type-key dictionary (direct and, with inverse paths, inverse features) and
+    from the profile itself *)
 Definition remove_iteration (ks : list str) (P : cprofile) : cprofile :=
   filter (fun ce : str * centry => negb (mem_str (fst ce) ks))
          (map (fun ce : str * centry =>
                  (fst ce, {| c_direct := remove_keys_pdict ks (c_direct (snd ce));
-                             c_inverse := c_inverse (snd ce) |})) P).
+                             c_inverse := remove_keys_pdict ks (c_inverse (snd ce)) |})) P).
 
 Fixpoint clean_profile (fuel : nat) (inverse : bool) (orig_labels : list str) (P : cprofile)
   : cprofile + perr :=
@@ -241,8 +242,7 @@ Fixpoint clean_profile (fuel : nat) (inverse : bool) (orig_labels : list str) (P
   | S f =>
     match shapes_to_remove inverse orig_labels P with
     | [] => inl P
-    | ks => if inverse then inr PEType
-            else clean_profile f inverse orig_labels (remove_iteration ks P)
+    | ks => clean_profile f inverse orig_labels (remove_iteration ks P)
     end
   end.
 
